@@ -223,6 +223,7 @@ static volatile long n_spur = 0, n_dropped = 0;
 static uint64_t last_logn = 0; static int last_bgs = 0; static const void *last_ver = NULL;
 static int p_failsync = 0;   /* fault injection: the n-th fsync/fdatasync of a table file fails with EIO (0 = off) */
 static volatile long n_tsync = 0; static unsigned char g_istable[4096];
+static volatile long n_logsync = 0; static unsigned char g_islog[4096];   /* fsyncs of write-ahead logs (group-commit durability, C02) */
 static int p_dropsig = 0, p_dropbc = 0; static volatile long n_wsig = 0, n_bgbc = 0;
 
 /* REQUIRES: db->mutex held by the calling thread */
@@ -265,10 +266,10 @@ void __wrap_ldb_batch_set_sequence(ldb_batch_t *batch, ldb__seqnum_t seq) {
       if (w->batch == NULL) continue;
       c = ldb_batch_count(w->batch); t = tid_of_addr(w); th = th_of_tid(t);
       if (acc + c > total) break;
-      sb_printf(&g_abs, "%s%d:%d:%d", first ? "" : ",", t, th ? th->cur_op : -1, c);
+      sb_printf(&g_abs, "%s%d:%d:%d:%d", first ? "" : ",", t, th ? th->cur_op : -1, c, w->sync ? 1 : 0);
       first = 0; acc += c; nm++;
     }
-    sb_printf(&g_abs, "\n");
+    sb_printf(&g_abs, " lsc=%ld\n", (long)__atomic_load_n(&n_logsync, __ATOMIC_SEQ_CST));
     n_grp++; if (nm > 1) n_grp_multi++;
   }
 }
@@ -391,8 +392,9 @@ static int fail_this_sync(int fd) {
       __atomic_add_fetch(&n_tsync, 1, __ATOMIC_SEQ_CST) == p_failsync) { errno = EIO; return 1; }
   return 0;
 }
-int __wrap_fsync(int fd) { sched_point(); if (fail_this_sync(fd)) return -1; return __real_fsync(fd); }
-int __wrap_fdatasync(int fd) { sched_point(); if (fail_this_sync(fd)) return -1; return __real_fdatasync(fd); }
+static void note_sync(int fd, int r) { if (r == 0 && fd >= 0 && fd < 4096 && g_islog[fd]) __atomic_add_fetch(&n_logsync, 1, __ATOMIC_SEQ_CST); }
+int __wrap_fsync(int fd) { int r; sched_point(); if (fail_this_sync(fd)) return -1; r = __real_fsync(fd); note_sync(fd, r); return r; }
+int __wrap_fdatasync(int fd) { int r; sched_point(); if (fail_this_sync(fd)) return -1; r = __real_fdatasync(fd); note_sync(fd, r); return r; }
 int __wrap_rename(const char *a, const char *b) { sched_point(); return __real_rename(a, b); }
 int __wrap_unlink(const char *p) { sched_point(); return __real_unlink(p); }
 int __wrap_open(const char *path, int flags, ...) {
@@ -402,6 +404,7 @@ int __wrap_open(const char *path, int flags, ...) {
   {
     int fd = __real_open(path, flags, mode); size_t n = strlen(path);
     if (fd >= 0 && fd < 4096) g_istable[fd] = (n > 4 && !strcmp(path + n - 4, ".ldb") && (flags & (O_WRONLY | O_RDWR))) ? 1 : 0;
+    if (fd >= 0 && fd < 4096) g_islog[fd] = (n > 4 && !strcmp(path + n - 4, ".log") && (flags & (O_WRONLY | O_RDWR))) ? 1 : 0;
     return fd;
   }
 }
@@ -742,7 +745,7 @@ int main(int argc, char **argv) {
     if (g_th[i].used && g_th[i].tid < 99) pthread_join(g_th[i].handle, NULL);
   mt->where = W_RUN;
   g_phase = "final";
-  sb_printf(&g_main, "JOINED %ld\n", g_clock);
+  sb_printf(&g_main, "JOINED %ld lsc=%ld\n", g_clock, (long)n_logsync);
   final_dump("FINAL");
   final_gets();
   g_phase = "close";
